@@ -2,7 +2,7 @@
    Model: Model/Content.v (loop of TextExtractor::parse_internal over the token list) with gen/OpTable.v (the
    OPERATORS table) and gen/Trans.v (the transition match) TRANSLATED from the Rust sources on every run.
    Spec: Spec/Fig9.v (Table 51, Figure 9, Table 109, documented separator tokens), written by hand. *)
-From PV Require Import Model.ContentLex Proofs.Content Proofs.ContentLex.
+From PV Require Import Model.ContentLex Proofs.Content Proofs.ContentLex Proofs.ContentLexTotal.
 
 (* the sweep: for each of the 5 levels and each operator name of the implementation's table (73) or of Table 51
    (73): the translated match equals Figure 9, known-ness agrees, and the operand-handling arm and arity are
@@ -62,6 +62,26 @@ Theorem C12_reject_bytes : forall (rel : bool) (maxd : nat) (s : bytes) (items :
   exists k, extract_bytes rel maxd s = Err k.
 Proof. exact extract_bytes_illegal. Qed.
 Print Assumptions C12_reject_bytes.
+
+(* totality (used by the C01 composition): the byte-level extractor neither panics nor runs out of model fuel on
+   any buffer below 2^31 bytes (the i32 parenthesis depth of RawLiteralString is the only unchecked arithmetic;
+   the fuel S (len s) of the token loop and of the array / dictionary loops suffices because every token
+   consumes at least one byte); in the release profile on any buffer *)
+Theorem C12_extract_bytes_total : forall (rel : bool) (maxd : nat) (s : bytes),
+  (Z.of_nat (len s) < 2147483648)%Z ->
+  extract_bytes rel maxd s <> Panic /\ extract_bytes rel maxd s <> Fuel.
+Proof. exact extract_bytes_total. Qed.
+Print Assumptions C12_extract_bytes_total.
+
+Theorem C12_extract_bytes_total_release : forall (maxd : nat) (s : bytes),
+  extract_bytes true maxd s <> Panic /\ extract_bytes true maxd s <> Fuel.
+Proof. exact extract_bytes_total_release. Qed.
+Print Assumptions C12_extract_bytes_total_release.
+
+Theorem C12_extract_total : forall toks : list cstoken,
+  Content.extract toks <> Panic /\ Content.extract toks <> Fuel.
+Proof. exact extract_total. Qed.
+Print Assumptions C12_extract_total.
 
 (* the hypotheses are satisfiable *)
 Example C12_lex_example :
